@@ -963,6 +963,7 @@ def run(ctx: Ctx, st: Optional[LeanStatus]) -> Result:
         rngc = ctx.sub_rng("custom")
         ccases = [gen_case(rngc) for _ in range(ctx.budget(12, 200))]
         judge_full(ctx, st, res, ccases, custom=True, drive=True, label="custom-ops")
+    _RUN_STATE["unknown_failures"] = sum(1 for f in res.failures if f.trigger is None)
     res.oracle_only += [
         "the emitted text passes through ast_to_str (autoflake, isort, black) and CPython's import + pydantic model_rebuild: observed on the generated packages, represented in Lean only by WellScoped",
         "behavioural identity of every client method (same variables JSON, same outcome through httpx.MockTransport + graphql-core execution) is judged by the oracle only",
@@ -976,8 +977,16 @@ def run(ctx: Ctx, st: Optional[LeanStatus]) -> Result:
     return res
 
 
+_RUN_STATE: Dict[str, Any] = {"unknown_failures": 0}
+
+
 def search(ctx: Ctx) -> Result:
+    """After a broken proof / correspondence: look for a concrete failing input on the real code
+    (skipped when the run that just finished already holds one)."""
     res = Result()
+    if _RUN_STATE["unknown_failures"]:
+        ctx.log("search skipped: the run already found a concrete failing input")
+        return res
     rng = ctx.sub_rng("search")
     cases = [gen_case(rng) for _ in range(400)]
     judge_full(ctx, None, res, cases, custom=False, drive=True, label="search")
